@@ -33,6 +33,7 @@ def run(req):
     tried = admissible = 0
     want = req.get('obligation', '').split('/', 1)[-1]
     first_other = None
+    last_why = ''
     for i in range(budget * 5):
         if admissible >= budget:
             break
@@ -42,6 +43,7 @@ def run(req):
         except gens.Skip:
             continue
         if not rc.admissible(case.params):
+            last_why = rc.why
             continue
         admissible += 1
         try:
@@ -56,7 +58,7 @@ def run(req):
                     + traceback.format_exc()[-1500:],
                     'tried': tried}
     return {'reproduced': False, 'conclusive': False, 'tried': tried, 'admissible': admissible,
-            'detail': f'no failing input among {admissible} admissible inputs'}
+            'detail': f'no failing input among {admissible} admissible inputs' + (f' (last rejection: {last_why})' if not admissible else '')}
 
 
 if __name__ == '__main__':
